@@ -1721,4 +1721,756 @@ theorem allFr (m : Nat) : ∀ f, AllFr b l pre dd f m := by
 
 end
 
+/-! ## Part 3: the end of the first part
+
+The last `scanToken` of a call that reaches the end of its input runs the loop of
+`SkipWhiteSpace` over the white space and comments that follow the last token and then finds
+the end of the input.  `wsEnd` follows that loop turn by turn and accepts if every turn ends
+without the reader having been asked for a byte beyond the end, and the end is found by the
+look-ahead at the head of the loop, at the start of a line, with nothing buffered. -/
+
+/-- one turn of the loop of `SkipWhiteSpace`: `true` = go on -/
+def wsTurn : SM Bool := do
+  let c ← peek
+  if c ≤ 32 then do skipByte; pure true
+  else if c == 37 then do
+    let s ← getS
+    if s.col == 0 && (← lookingAt [37, 37]) then do
+      match ← readStructuredComment with
+      | some (k, v) => modS (fun s => { s with dsc := s.dsc ++ [(bytesToString k, bytesToString v)] })
+      | none => pure ()
+      pure true
+    else do skipComment; pure true
+  else pure false
+
+theorem ite_bind' {α β : Type} (c : Prop) [Decidable c] (x y : SM α) (f : α → SM β) :
+    (if c then x else y) >>= f = if c then x >>= f else y >>= f := by
+  split <;> rfl
+
+theorem skipWhiteSpace_succ (n : Nat) : skipWhiteSpace (n + 1) = (do
+    if (← wsTurn) then skipWhiteSpace n else pure ()) := by
+  conv => lhs; unfold skipWhiteSpace
+  unfold wsTurn
+  simp only [bind_assoc, pure_bind, ite_bind', if_true, Bool.false_eq_true, if_false]
+  refine bind_congr (fun c => ?_)
+  split
+  · rfl
+  · split
+    · refine bind_congr (fun s => ?_)
+      refine bind_congr (fun la => ?_)
+      split
+      · refine bind_congr (fun x => ?_)
+        cases x with
+        | none => simp only [pure_bind, if_true]
+        | some kv =>
+          obtain ⟨k, v⟩ := kv
+          simp only [bind_assoc, pure_bind, if_true]
+      · rfl
+    · rfl
+
+theorem fr_wsTurn (b : List UInt8) (l : Nat) (pre : List (String × String)) : Fr b l pre wsTurn wsTurn := by
+  intro sc; unfold wsTurn; fr_auto
+
+/-- between tokens, at the start of a line, everything read, nothing buffered, no eexec section open -/
+def atEnd (sc : Scanner) : Bool :=
+  sc.src.isEmpty && sc.peek.isEmpty && sc.err.isNone && sc.fault.isNone && sc.eexec == 0 && !sc.regurgitate &&
+  sc.col == 0 && !sc.crSeen && sc.r == 0
+
+structure AtEnd (sc : Scanner) : Prop where
+  src : sc.src = []
+  peek : sc.peek = []
+  err : sc.err = none
+  fault : sc.fault = none
+  eexec : sc.eexec = 0
+  reg : sc.regurgitate = false
+  col : sc.col = 0
+  crSeen : sc.crSeen = false
+  r : sc.r = 0
+
+theorem atEnd_iff {sc : Scanner} (h : atEnd sc = true) : AtEnd sc := by
+  unfold atEnd at h
+  simp only [Bool.and_eq_true, List.isEmpty_iff, Option.isNone_iff_eq_none, beq_iff_eq, Bool.not_eq_true'] at h
+  obtain ⟨⟨⟨⟨⟨⟨⟨⟨h1, h2⟩, h3⟩, h4⟩, h5⟩, h6⟩, h7⟩, h8⟩, h9⟩ := h
+  exact ⟨h1, h2, h3, h4, h5, h6, h7, h8, h9⟩
+
+/-- the loop of `SkipWhiteSpace` with fuel `n` started in `sc` reaches, by whole turns that
+do not look beyond the end of the source, a state `scX` with `atEnd`; the result is the
+fuel that is left and that state -/
+def wsEnd : Nat → Scanner → Option (Nat × Scanner)
+  | 0, _ => none
+  | n + 1, sc =>
+    if atEnd sc then some (n + 1, sc)
+    else
+      match wsTurn sc with
+      | (.ok true, sc1) => if sc1.err.isNone then wsEnd n sc1 else none
+      | _ => none
+
+/-- the scanner after it has found the end of its source -/
+def eofOf (sc : Scanner) : Scanner := { sc with err := some .eof }
+
+theorem wsTurn_atEnd {sc : Scanner} (h : AtEnd sc) : wsTurn sc = (.error .eof, eofOf sc) := by
+  have e1 : readByteRaw sc = (.error .eof, eofOf sc) := by
+    unfold readByteRaw eofOf
+    simp [h.src, h.peek, h.err, h.fault, h.reg]
+  have e2 : readByte sc = (.error .eof, eofOf sc) := by
+    unfold readByte
+    rw [getS_bind_eq]
+    simp only [h.eexec, beq_self_eq_true, if_true]
+    exact e1
+  have e3 : peek sc = (.error .eof, eofOf sc) := by
+    rw [peek_unfold, getS_bind_eq, h.peek]
+    dsimp only
+    rw [peekMore_eq, e2]
+  unfold wsTurn
+  rw [bind_eq, e3]
+
+theorem wsEnd_short : ∀ n sc k scX, wsEnd n sc = some (k, scX) →
+    AtEnd scX ∧ k ≤ n ∧ 1 ≤ k ∧ skipWhiteSpace n sc = (.error .eof, eofOf scX) := by
+  intro n
+  induction n with
+  | zero => intro sc k scX h; simp [wsEnd] at h
+  | succ n ih =>
+    intro sc k scX h
+    unfold wsEnd at h
+    split at h
+    · rename_i hat
+      have hA := atEnd_iff hat
+      simp only [Option.some.injEq, Prod.mk.injEq] at h
+      obtain ⟨rfl, rfl⟩ := h
+      refine ⟨hA, Nat.le_refl _, by omega, ?_⟩
+      rw [skipWhiteSpace_succ, bind_eq, wsTurn_atEnd hA]
+    · split at h
+      · rename_i sc1 hw
+        split at h
+        · obtain ⟨a1, a2, a3, a4⟩ := ih sc1 k scX h
+          refine ⟨a1, by omega, a3, ?_⟩
+          rw [skipWhiteSpace_succ, bind_eq, hw]
+          simp only [if_true]
+          exact a4
+        · cases h
+      · cases h
+
+theorem wsEnd_long (b : List UInt8) (l : Nat) (pre : List (String × String)) :
+    ∀ n sc k scX, wsEnd n sc = some (k, scX) →
+    ∀ d, skipWhiteSpace (n + d) (ext b l pre sc) = skipWhiteSpace (k + d) (ext b l pre scX) := by
+  intro n
+  induction n with
+  | zero => intro sc k scX h; simp [wsEnd] at h
+  | succ n ih =>
+    intro sc k scX h d
+    unfold wsEnd at h
+    split at h
+    · simp only [Option.some.injEq, Prod.mk.injEq] at h
+      obtain ⟨rfl, rfl⟩ := h
+      rfl
+    · split at h
+      · rename_i sc1 hw
+        split at h
+        · rename_i he
+          have hfr := (fr_wsTurn b l pre sc).frame
+          rw [hw] at hfr
+          obtain ⟨_, hw'⟩ := hfr (Or.inl (by simpa using he))
+          have e : n + 1 + d = (n + d) + 1 := by omega
+          rw [e, skipWhiteSpace_succ, bind_eq, hw']
+          simp only [if_true]
+          exact ih sc1 k scX h d
+        · cases h
+      · cases h
+
+/-- the part of `scanToken` after the white space -/
+def scanTokenRest : SM Tok := do
+  let b ← peek
+  if b == 40 then do pure (.str (← readString))
+  else if b == 60 then do
+    let bb ← peekN 2 3
+    if bb == [60, 60] then do skipByte; skipByte; pure (.obj (.op "<<"))
+    else if bb == [60, 126] then do pure (.str (← readBase85String))
+    else do pure (.str (← readHexString))
+  else if b == 62 then do
+    let bb ← peekN 2 3
+    if bb == [62, 62] then do skipByte; skipByte; pure (.obj (.op ">>"))
+    else do
+      let s ← getS
+      match (if bb.length < 2 then s.err else none) with
+      | some e => fail e
+      | none => fail syntaxErr
+  else if b == 47 then do
+    skipByte
+    let s ← getS
+    let name ← readRegular (fuelOf s) []
+    pure (.obj (.name (bytesToString name)))
+  else do
+    skipByte
+    let s ← getS
+    let bytes ← (if isRegular b then readRegular (fuelOf s) [b] else pure [b])
+    match parseNumber bytes with
+    | some x => pure (.obj x)
+    | none => pure (.obj (.op (bytesToString bytes)))
+
+theorem scanToken_eq : scanToken = (do let s ← getS; skipWhiteSpace (fuelOf s + 4); scanTokenRest) := rfl
+
+/-- `scanToken` with a given fuel for the white-space loop -/
+def scanTokenN (n : Nat) : SM Tok := do skipWhiteSpace n; scanTokenRest
+
+theorem scanToken_N (sc : Scanner) : scanToken sc = scanTokenN (fuelOf sc + 4) sc := by
+  rw [scanToken_eq, getS_bind_eq]; rfl
+
+theorem scanToken_short {sc scX : Scanner} {k : Nat} (h : wsEnd (fuelOf sc + 4) sc = some (k, scX)) :
+    scanToken sc = (.error .eof, eofOf scX) := by
+  rw [scanToken_N]
+  unfold scanTokenN
+  rw [bind_eq, (wsEnd_short _ _ _ _ h).2.2.2]
+
+theorem scanToken_long (b : List UInt8) (l : Nat) (pre : List (String × String)) {sc scX : Scanner} {k : Nat}
+    (h : wsEnd (fuelOf sc + 4) sc = some (k, scX)) :
+    scanToken (ext b l pre sc) = scanTokenN (k + b.length) (ext b l pre scX) := by
+  rw [scanToken_N]
+  unfold scanTokenN
+  have e : fuelOf (ext b l pre sc) + 4 = (fuelOf sc + 4) + b.length := by
+    simp only [fuelOf, ext_src, ext_peek, List.length_append]; omega
+  rw [e, bind_eq, bind_eq, wsEnd_long b l pre _ _ _ _ h]
+
+/-- the white-space loop with more fuel, if it did not run out of fuel -/
+theorem ws_mono : ∀ n n' sc, n ≤ n' → (skipWhiteSpace n sc).1 ≠ .error scannerFuel →
+    skipWhiteSpace n' sc = skipWhiteSpace n sc := by
+  intro n
+  induction n with
+  | zero => intro n' sc _ h; exact absurd rfl h
+  | succ n ih =>
+    intro n' sc hle h
+    obtain ⟨k, rfl⟩ : ∃ k, n' = k + 1 := ⟨n' - 1, by omega⟩
+    rw [skipWhiteSpace_succ, bind_eq] at h ⊢
+    rw [skipWhiteSpace_succ, bind_eq]
+    generalize wsTurn sc = p at h ⊢
+    obtain ⟨r, sc1⟩ := p
+    cases r with
+    | error e => rfl
+    | ok c =>
+      cases c with
+      | false => rfl
+      | true =>
+        simp only [if_true] at h ⊢
+        exact ih k sc1 (by omega) h
+
+theorem ws_agree {n1 n2 : Nat} {sc : Scanner} (h1 : (skipWhiteSpace n1 sc).1 ≠ .error scannerFuel)
+    (h2 : (skipWhiteSpace n2 sc).1 ≠ .error scannerFuel) : skipWhiteSpace n1 sc = skipWhiteSpace n2 sc := by
+  by_cases h : n1 ≤ n2
+  · exact (ws_mono n1 n2 sc h h1).symm
+  · exact ws_mono n2 n1 sc (by omega) h2
+
+theorem scanTokenN_sf {n : Nat} {sc : Scanner} (h : (scanTokenN n sc).1 ≠ .error scannerFuel) :
+    (skipWhiteSpace n sc).1 ≠ .error scannerFuel := by
+  intro hc
+  apply h
+  unfold scanTokenN
+  rw [bind_eq]
+  generalize skipWhiteSpace n sc = p at hc
+  obtain ⟨r, sc1⟩ := p
+  dsimp only at hc
+  subst hc
+  rfl
+
+theorem scanTokenN_agree {n1 n2 : Nat} {sc : Scanner} (h1 : (scanTokenN n1 sc).1 ≠ .error scannerFuel)
+    (h2 : (scanTokenN n2 sc).1 ≠ .error scannerFuel) : scanTokenN n1 sc = scanTokenN n2 sc := by
+  unfold scanTokenN
+  rw [bind_eq, bind_eq, ws_agree (scanTokenN_sf h1) (scanTokenN_sf h2)]
+
+/-- a new scanner -/
+def fresh (b : List UInt8) : Scanner := { src := b, fault := none }
+
+theorem ext_atEnd (b : List UInt8) {scX : Scanner} (h : AtEnd scX) :
+    ext b 0 [] scX = ext [] scX.line scX.dsc (fresh b) := by
+  obtain ⟨src, fault, peek, reg, eexec, r, line, col, crSeen, dsc, err⟩ := scX
+  obtain ⟨h1, h2, h3, h4, h5, h6, h7, h8, h9⟩ := h
+  dsimp only at h1 h2 h3 h4 h5 h6 h7 h8 h9
+  subst h1 h2 h3 h4 h5 h6 h7 h8 h9
+  simp [ext, fresh]
+
+/-- the scanner functions with the same fuel on a scanner whose line counter and list of
+structured comments were changed -/
+theorem scanTokenN_ext (n : Nat) (l : Nat) (pre : List (String × String)) (sc : Scanner) :
+    scanTokenN n (ext [] l pre sc) = ((scanTokenN n sc).1, ext [] l pre (scanTokenN n sc).2) := by
+  have h : FrW (b := []) (l := l) (pre := pre) (scanTokenN n) (scanTokenN n) sc := by
+    unfold scanTokenN
+    apply FrW.bind (frw_skipWhiteSpace _ _ _ (Nat.le_refl _) (fun _ => rfl))
+    intro u sc1
+    apply FrAt.weak
+    unfold scanTokenRest
+    fr_auto
+  exact (h _ _ rfl (Or.inr rfl) (fun hb => absurd rfl hb)).2
+
+/-- the first token after the split: the rest of the long run continues like a new scanner
+over the second part, up to the line counter and the structured comments recorded so far -/
+theorem firstToken (b : List UInt8) {sc scX : Scanner} {k : Nat} (h : wsEnd (fuelOf sc + 4) sc = some (k, scX))
+    (h1 : (scanToken (ext b 0 [] sc)).1 ≠ .error scannerFuel)
+    (h2 : (scanToken (fresh b)).1 ≠ .error scannerFuel) :
+    scanToken (ext b 0 [] sc) = ((scanToken (fresh b)).1, ext [] scX.line scX.dsc (scanToken (fresh b)).2) := by
+  have hA := (wsEnd_short _ _ _ _ h).1
+  rw [scanToken_long b 0 [] h, ext_atEnd b hA] at h1 ⊢
+  rw [scanToken_N (fresh b)] at h2 ⊢
+  have e := scanTokenN_ext (fuelOf (fresh b) + 4) scX.line scX.dsc (fresh b)
+  have h2' : (scanTokenN (fuelOf (fresh b) + 4) (ext [] scX.line scX.dsc (fresh b))).1 ≠ .error scannerFuel := by
+    rw [e]; exact h2
+  rw [scanTokenN_agree h1 h2', e]
+
+/-! ### the token loop -/
+
+/-- the body of `executeScanner`'s loop after `ScanToken` -/
+def loopBody (f m : Nat) (p : State × Except Err Tok) : State × Res :=
+  match p with
+  | (s1, r) =>
+    match r with
+    | .error .eof => okS s1
+    | .error e => (s1, .err e)
+    | .ok tok =>
+      match objOfTok s1 tok with
+      | (s2, o) =>
+        match execOne f m s2 o false with
+        | (s3, r3) =>
+          match r3 with
+          | .ok => scanLoop f m s3
+          | _ => (s3, r3)
+
+theorem scanLoop_succ (f m : Nat) (s : State) :
+    scanLoop (f + 1) m s = loopBody f m (withScanner s Scan.scanToken) := by
+  conv => lhs; unfold scanLoop
+  rfl
+
+theorem frq_loopBody {b : List UInt8} {l : Nat} {pre dd : List (String × String)} {f m : Nat}
+    (ih : AllFr b l pre dd f m) (s1 : State) (r0 : Except Err Tok) :
+    FrP b l pre dd s1 (loopBody f m (s1, r0)) (loopBody f m (extSt b l pre dd s1, r0)) := by
+  unfold loopBody
+  dsimp only [extSt]
+  split
+  · exact FrQ.leaf rfl rfl
+  · exact FrQ.leaf rfl rfl
+  · rename_i tok
+    have e := objOfTok_ext (b := b) (l := l) (pre := pre) (dd := dd) s1 tok
+    dsimp only [extSt] at e
+    rw [e]
+    have hsc := objOfTok_scanner s1 tok
+    generalize objOfTok s1 tok = p2 at hsc ⊢
+    obtain ⟨s2, o⟩ := p2
+    dsimp only at hsc ⊢
+    apply FrQ.start hsc
+    have h3 := ih.one s2 o false
+    dsimp only [extSt] at h3
+    generalize execOne f m s2 o false = p3 at h3 ⊢
+    generalize execOne f m _ o false = p3' at h3 ⊢
+    sync p3 h3
+    rename_i s3 r3
+    split
+    · exact ih.sLoop s3
+    · exact FrQ.leaf rfl rfl
+
+/-! ### the interpreter's own list of structured comments is not touched by `executeScanner` -/
+
+theorem ext_nil (sc : Scanner) : ext [] 0 [] sc = sc := by
+  obtain ⟨src, fault, peek, reg, eexec, r, line, col, crSeen, dsc, err⟩ := sc
+  simp [ext]
+
+theorem extSt_nil (s : State) : extSt [] 0 [] s.dsc s = s := by
+  unfold extSt
+  rw [ext_nil]
+
+theorem scanRun_dsc (f m : Nat) (s : State) : (scanRun f m s).1.dsc = s.dsc := by
+  have h := (allFr (b := []) (l := 0) (pre := []) (dd := s.dsc) m f).sRun s (Or.inr rfl) (fun hb => absurd rfl hb)
+  rw [extSt_nil] at h
+  have e := congrArg (fun p => p.1.dsc) h.2
+  exact e
+
+theorem scanLoop_dsc (f m : Nat) (s : State) : (scanLoop f m s).1.dsc = s.dsc := by
+  have h := (allFr (b := []) (l := 0) (pre := []) (dd := s.dsc) m f).sLoop s (Or.inr rfl) (fun hb => absurd rfl hb)
+  rw [extSt_nil] at h
+  have e := congrArg (fun p => p.1.dsc) h.2
+  exact e
+
+/-! ### a run that ends cleanly at a token boundary -/
+
+/-- the next `scanToken` finds the end of the input cleanly (`wsEnd`); the two other tests
+always succeed after at least one call of `Execute` has started and are only there to keep the
+proof short: `CheckStart` has been cleared and a scanner is installed -/
+def endOK (s : State) : Bool :=
+  (wsEnd (fuelOf s.scanner + 4) s.scanner).isSome && !s.checkStart && s.scannerDepth != 0
+
+/-- the token loop of `executeScanner`, accepting only runs in which every token is scanned
+and executed with result `ok` and without the reader being asked for a byte beyond the end of
+the input, until `endOK`; the result is the state before the last `scanToken` and the number
+of tokens executed -/
+def cleanLoop : Nat → Nat → State → Option (State × Nat)
+  | 0, _, _ => none
+  | f + 1, m, s =>
+    if endOK s then some (s, 0)
+    else
+      match withScanner s Scan.scanToken with
+      | (s1, .ok tok) =>
+        match objOfTok s1 tok with
+        | (s2, o) =>
+          match execOne f m s2 o false with
+          | (s3, .ok) =>
+            if s3.scanner.err.isNone then
+              match cleanLoop f m s3 with
+              | some (sK, j) => some (sK, j + 1)
+              | none => none
+            else none
+          | _ => none
+      | _ => none
+
+theorem cleanLoop_short : ∀ f m s sK j, cleanLoop f m s = some (sK, j) →
+    endOK sK = true ∧ j < f ∧ ∀ k scX, wsEnd (fuelOf sK.scanner + 4) sK.scanner = some (k, scX) →
+      scanLoop f m s = ({ sK with scanner := eofOf scX }, .ok) := by
+  intro f
+  induction f with
+  | zero => intro m s sK j h; simp [cleanLoop] at h
+  | succ f ih =>
+    intro m s sK j h
+    unfold cleanLoop at h
+    split at h
+    · rename_i he
+      simp only [Option.some.injEq, Prod.mk.injEq] at h
+      obtain ⟨rfl, rfl⟩ := h
+      refine ⟨he, by omega, ?_⟩
+      intro k scX hw
+      rw [scanLoop_succ]
+      unfold withScanner
+      rw [scanToken_short hw]
+      rfl
+    · split at h
+      · rename_i s1 tok h0
+        split at h
+        rename_i s2 o h2
+        split at h
+        · rename_i s3 h3
+          split at h
+          · split at h
+            · rename_i sK' j' hc
+              simp only [Option.some.injEq, Prod.mk.injEq] at h
+              obtain ⟨rfl, rfl⟩ := h
+              obtain ⟨a1, a2, a3⟩ := ih m s3 sK' j' hc
+              refine ⟨a1, by omega, ?_⟩
+              intro k scX hw
+              rw [scanLoop_succ, h0]
+              unfold loopBody
+              dsimp only
+              rw [h2]
+              dsimp only
+              rw [h3]
+              dsimp only
+              exact a3 k scX hw
+            · cases h
+          · cases h
+        · cases h
+      · cases h
+
+theorem cleanLoop_long (b : List UInt8) (dd : List (String × String)) :
+    ∀ f m s sK j, cleanLoop f m s = some (sK, j) → ∀ F, f ≤ F + j →
+      scanLoop (F + j) m (extSt b 0 [] dd s) = scanLoop F m (extSt b 0 [] dd sK) := by
+  intro f
+  induction f with
+  | zero => intro m s sK j h; simp [cleanLoop] at h
+  | succ f ih =>
+    intro m s sK j h F hF
+    unfold cleanLoop at h
+    split at h
+    · simp only [Option.some.injEq, Prod.mk.injEq] at h
+      obtain ⟨rfl, rfl⟩ := h
+      rfl
+    · split at h
+      · rename_i s1 tok h0
+        split at h
+        rename_i s2 o h2
+        split at h
+        · rename_i s3 h3
+          split at h
+          · rename_i he
+            split at h
+            · rename_i sK' j' hc
+              simp only [Option.some.injEq, Prod.mk.injEq] at h
+              obtain ⟨rfl, rfl⟩ := h
+              have hq3 : Quiet b s3.scanner := Or.inl (by simpa using he)
+              -- the token is executed in the same way
+              have g3 := (allFr (b := b) (l := 0) (pre := []) (dd := dd) m f).one s2 o false
+              rw [h3] at g3
+              obtain ⟨hq2, e3⟩ := g3 hq3 (fun _ hbad => by cases hbad)
+              -- … and scanned in the same way
+              have hsc := objOfTok_scanner s1 tok
+              rw [h2] at hsc
+              dsimp only at hsc
+              have g0 := frq_withScanner (dd := dd) (frw_scanToken (b := b) (l := 0) (pre := []) s.scanner)
+              rw [h0] at g0
+              obtain ⟨_, e0⟩ := g0 (by rw [← hsc]; exact hq2) (fun _ hbad => by cases hbad)
+              have e2 := objOfTok_ext (b := b) (l := 0) (pre := []) (dd := dd) s1 tok
+              rw [h2] at e2
+              have hmono := InterpFuel.execOne_fuel_mono (f := f) (f' := F + j') (by omega) m
+                (extSt b 0 [] dd s2) o false (by rw [e3]; intro hh; cases hh)
+              have eF : F + (j' + 1) = (F + j') + 1 := by omega
+              rw [eF, scanLoop_succ, e0]
+              unfold loopBody
+              dsimp only
+              rw [e2]
+              dsimp only
+              rw [hmono, e3]
+              dsimp only
+              exact ih m s3 sK' j' hc F (by omega)
+            · cases h
+          · cases h
+        · cases h
+      · cases h
+
+/-! ### `executeScanner` and `Execute` around the token loop -/
+
+/-- the header test of `executeScanner` -/
+def startOf (s : State) : State × Option Err :=
+  if s.checkStart then
+    match withScanner s (Scan.peekN 2 3) with
+    | (s1, r) =>
+      match r with
+      | .ok head =>
+        if head == [37, 33] then ({ s1 with checkStart := false }, none)
+        else
+          match (if head.length < 2 then s1.scanner.err else none) with
+          | none | some .eof => (s1, some .noPS)
+          | some e => (s1, some e)
+      | .error e => (s1, some e)
+  else (s, none)
+
+/-- leaving `executeScanner` -/
+def wrapR (p : State × Res) : State × Res := ({ p.1 with scannerDepth := p.1.scannerDepth - 1 }, p.2)
+
+theorem scanRun_succ (f m : Nat) (s : State) :
+    scanRun (f + 1) m s = match startOf s with
+      | (s1, some e) => (s1, .err e)
+      | (s1, none) => wrapR (scanLoop f m { s1 with scannerDepth := s1.scannerDepth + 1 }) := by
+  conv => lhs; unfold scanRun
+  rfl
+
+/-- the end of `Execute` -/
+def finish (p : State × Res) : State × Res :=
+  match p with
+  | (s1, r) =>
+    match r with
+    | .err .exit => (s1, .err (.ps "invalidexit"))
+    | .err .stop | .ok => ({ s1 with dsc := s1.dsc ++ s1.scanner.dsc }, .ok)
+    | _ => (s1, r)
+
+theorem execute_eq (f m : Nat) (s : State) (input : List UInt8) :
+    execute f m s input none = finish (scanRun f m { s with scanner := fresh input }) := rfl
+
+theorem startOf_long (b : List UInt8) (dd : List (String × String)) {s s1 : State}
+    (h : startOf s = (s1, none)) (hq : s1.scanner.err = none) :
+    startOf (extSt b 0 [] dd s) = (extSt b 0 [] dd s1, none) := by
+  unfold startOf at h ⊢
+  dsimp only [extSt] at h ⊢
+  by_cases hcs : s.checkStart = true
+  · rw [if_pos hcs] at h ⊢
+    have h0 := frq_withScanner (dd := dd) (FrAt.weak (fr_peekN (b := b) (l := 0) (pre := []) 2 3 s.scanner))
+    dsimp only [extSt] at h0
+    generalize withScanner s (Scan.peekN 2 3) = p0 at h0 h
+    obtain ⟨s0, r0⟩ := p0
+    dsimp only at h
+    cases r0 with
+    | error e => cases h
+    | ok head =>
+      dsimp only at h
+      by_cases hh : (head == [37, 33]) = true
+      · rw [if_pos hh] at h
+        simp only [Prod.mk.injEq, and_true] at h
+        subst h
+        obtain ⟨_, e0⟩ := h0 (Or.inl hq) (fun _ hbad => by cases hbad)
+        rw [e0]
+        dsimp only
+        rw [if_pos hh]
+      · rw [if_neg hh] at h
+        split at h <;> cases h
+  · rw [if_neg hcs] at h ⊢
+    cases h
+    rfl
+
+/-- `Execute`, accepting only runs that end cleanly at a token boundary; the result is the
+state before the last `scanToken` and the number of tokens executed -/
+def cleanRun (f m : Nat) (s : State) (a : List UInt8) : Option (State × Nat) :=
+  match f with
+  | 0 => none
+  | f + 1 =>
+    match startOf { s with scanner := fresh a } with
+    | (s1, none) =>
+      if s1.scanner.err.isNone then cleanLoop f m { s1 with scannerDepth := s1.scannerDepth + 1 } else none
+    | _ => none
+
+theorem startOf_dsc (s : State) : (startOf s).1.dsc = s.dsc := by
+  unfold startOf
+  split
+  · unfold withScanner
+    dsimp only
+    repeat' split
+    all_goals rfl
+  · rfl
+
+theorem loopBody_sf (f m : Nat) (p : State × Except Err Tok) (h : p.2 = .error scannerFuel) :
+    (finish (wrapR (loopBody f m p))).2 = .err scannerFuel := by
+  obtain ⟨s1, r⟩ := p
+  dsimp only at h
+  subst h
+  rfl
+
+/-- outcome of the single call in terms of the outcome `q` of the token loop of the second
+call: the same interpreter, a scanner that differs in the line counter and the recorded
+structured comments, and -/
+theorem finish_ext (l : Nat) (pre dd : List (String × String)) (q : State × Res) :
+    finish (wrapR (extSt [] l pre dd q.1, q.2)) =
+      ({ (finish (wrapR q)).1 with
+          scanner := ext [] l pre (finish (wrapR q)).1.scanner,
+          dsc := if (finish (wrapR q)).2 = .ok then dd ++ (pre ++ q.1.scanner.dsc) else dd },
+       (finish (wrapR q)).2) := by
+  obtain ⟨s1, r⟩ := q
+  unfold finish wrapR
+  dsimp only [extSt]
+  split
+  · simp
+  · simp
+  · simp
+  · rename_i h1 h2 h3
+    rw [if_neg h3]
+
+theorem finish_ok_dsc (q : State × Res) (hok : (finish (wrapR q)).2 = .ok) :
+    (finish (wrapR q)).1.dsc = q.1.dsc ++ q.1.scanner.dsc := by
+  obtain ⟨s1, r⟩ := q
+  cases r with
+  | ok => rfl
+  | fuel => cases hok
+  | err e => cases e <;> first | rfl | cases hok
+
+/-- the state in which the first call leaves the interpreter -/
+def afterFirst (s sK : State) (scX : Scanner) : State :=
+  { sK with scanner := eofOf scX, scannerDepth := sK.scannerDepth - 1, dsc := s.dsc ++ scX.dsc }
+
+theorem split_core {f m : Nat} {s sK : State} {a : List UInt8} {j : Nat}
+    (hc : cleanRun f m s a = some (sK, j)) :
+    ∃ k scX, wsEnd (fuelOf sK.scanner + 4) sK.scanner = some (k, scX) ∧
+      execute f m s a none = (afterFirst s sK scX, .ok) ∧
+      ∀ (b : List UInt8) (F1 F2 : Nat),
+        (execute F1 m s (a ++ b) none).2 ≠ .fuel →
+        (execute F2 m (afterFirst s sK scX) b none).2 ≠ .fuel →
+        (execute F1 m s (a ++ b) none).2 ≠ .err scannerFuel →
+        (execute F2 m (afterFirst s sK scX) b none).2 ≠ .err scannerFuel →
+        execute F1 m s (a ++ b) none =
+          ({ (execute F2 m (afterFirst s sK scX) b none).1 with
+              scanner := ext [] scX.line scX.dsc (execute F2 m (afterFirst s sK scX) b none).1.scanner,
+              dsc := if (execute F2 m (afterFirst s sK scX) b none).2 = .ok
+                then (execute F2 m (afterFirst s sK scX) b none).1.dsc else s.dsc },
+           (execute F2 m (afterFirst s sK scX) b none).2) := by
+  cases f with
+  | zero => simp [cleanRun] at hc
+  | succ f =>
+    unfold cleanRun at hc
+    dsimp only at hc
+    split at hc
+    · rename_i s1 hst
+      split at hc
+      · rename_i herr
+        have herr' : s1.scanner.err = none := by simpa using herr
+        obtain ⟨hend, hj, hshort⟩ := cleanLoop_short _ _ _ _ _ hc
+        unfold endOK at hend
+        simp only [Bool.and_eq_true, Bool.not_eq_true', bne_iff_ne, ne_eq] at hend
+        obtain ⟨⟨hw, hcs⟩, hdep⟩ := hend
+        obtain ⟨⟨k, scX⟩, hw⟩ := Option.isSome_iff_exists.mp hw
+        have hdsc : sK.dsc = s.dsc := by
+          have e := scanLoop_dsc f m { s1 with scannerDepth := s1.scannerDepth + 1 }
+          rw [hshort k scX hw] at e
+          have e1 := startOf_dsc { s with scanner := fresh a }
+          rw [hst] at e1
+          exact e.trans e1
+        refine ⟨k, scX, hw, ?_, ?_⟩
+        · rw [execute_eq, scanRun_succ, hst]
+          dsimp only
+          rw [hshort k scX hw]
+          unfold wrapR finish afterFirst eofOf
+          dsimp only
+          rw [hdsc]
+        · intro b F1 F2 hf1 hf2 hsf1 hsf2
+          -- enough fuel for both runs
+          have e1 := InterpFuel.execute_fuel_mono (f := F1) (f' := (F1 + F2 + f) + 1 + j + 1) (by omega) m s (a ++ b) none hf1
+          have e2 := InterpFuel.execute_fuel_mono (f := F2) (f' := (F1 + F2 + f) + 1 + 1) (by omega) m
+            (afterFirst s sK scX) b none hf2
+          rw [← e1] at hsf1 ⊢
+          rw [← e2] at hsf2 ⊢
+          have hF : f ≤ F1 + F2 + f := by omega
+          generalize F1 + F2 + f = F at hsf1 hsf2 hF ⊢
+          clear e1 e2 hf1 hf2
+          -- the long run arrives at the last token boundary of the first part
+          have eab : execute (F + 1 + j + 1) m s (a ++ b) none =
+              finish (wrapR (loopBody F m (withScanner (extSt b 0 [] s.dsc sK) Scan.scanToken))) := by
+            rw [execute_eq]
+            have e0 : ({ s with scanner := fresh (a ++ b) } : State) =
+                extSt b 0 [] s.dsc { s with scanner := fresh a } := rfl
+            rw [e0, scanRun_succ, startOf_long b s.dsc hst herr']
+            dsimp only
+            have e3 : ({ extSt b 0 [] s.dsc s1 with scannerDepth := (extSt b 0 [] s.dsc s1).scannerDepth + 1 } : State) =
+                extSt b 0 [] s.dsc { s1 with scannerDepth := s1.scannerDepth + 1 } := rfl
+            rw [e3, cleanLoop_long b s.dsc _ _ _ _ _ hc (F + 1) (by omega), scanLoop_succ]
+          -- the second call
+          have eb : execute (F + 1 + 1) m (afterFirst s sK scX) b none =
+              finish (wrapR (loopBody F m (withScanner
+                { afterFirst s sK scX with scanner := fresh b, scannerDepth := sK.scannerDepth - 1 + 1 }
+                Scan.scanToken))) := by
+            rw [execute_eq, scanRun_succ]
+            have est : startOf { afterFirst s sK scX with scanner := fresh b } =
+                ({ afterFirst s sK scX with scanner := fresh b }, none) := by
+              unfold startOf
+              rw [if_neg]
+              show ¬ sK.checkStart = true
+              rw [hcs]; simp
+            rw [est]
+            dsimp only
+            rw [scanLoop_succ]
+            rfl
+          rw [eab] at hsf1 ⊢
+          rw [eb] at hsf2 ⊢
+          clear eab eb
+          -- the first token of the second part
+          have h1 : (Scan.scanToken (ext b 0 [] sK.scanner)).1 ≠ .error scannerFuel := by
+            intro hx
+            exact hsf1 (loopBody_sf F m _ hx)
+          have h2 : (Scan.scanToken (fresh b)).1 ≠ .error scannerFuel := by
+            intro hx
+            exact hsf2 (loopBody_sf F m _ hx)
+          have ft := firstToken b hw h1 h2
+          have hd : sK.scannerDepth - 1 + 1 = sK.scannerDepth := by omega
+          have ewU : withScanner (extSt b 0 [] s.dsc sK) Scan.scanToken =
+              (extSt [] scX.line scX.dsc s.dsc
+                { afterFirst s sK scX with scanner := (Scan.scanToken (fresh b)).2,
+                                           scannerDepth := sK.scannerDepth - 1 + 1 },
+               (Scan.scanToken (fresh b)).1) := by
+            unfold withScanner
+            dsimp only [extSt]
+            rw [ft]
+            dsimp only [afterFirst]
+            rw [hd]
+          have ewT : withScanner
+              { afterFirst s sK scX with scanner := fresh b, scannerDepth := sK.scannerDepth - 1 + 1 }
+              Scan.scanToken =
+              ({ afterFirst s sK scX with scanner := (Scan.scanToken (fresh b)).2,
+                                          scannerDepth := sK.scannerDepth - 1 + 1 },
+               (Scan.scanToken (fresh b)).1) := rfl
+          -- the structured comments of the second call's interpreter
+          have hqd : (loopBody F m (withScanner
+              { afterFirst s sK scX with scanner := fresh b, scannerDepth := sK.scannerDepth - 1 + 1 }
+              Scan.scanToken)).1.dsc = s.dsc ++ scX.dsc := by
+            rw [← scanLoop_succ, scanLoop_dsc]
+            rfl
+          rw [ewU]
+          rw [ewT] at hqd ⊢
+          generalize ({ afterFirst s sK scX with scanner := (Scan.scanToken (fresh b)).2, scannerDepth := sK.scannerDepth - 1 + 1 } : State) = T1 at hqd ⊢
+          generalize (Scan.scanToken (fresh b)).1 = rT at hqd ⊢
+          have hb := frq_loopBody (allFr (b := []) (l := scX.line) (pre := scX.dsc) (dd := s.dsc) m F) T1 rT
+            (Or.inr rfl) (fun hb => absurd rfl hb)
+          rw [hb.2, finish_ext]
+          generalize loopBody F m (T1, rT) = q at hqd ⊢
+          by_cases hok : (finish (wrapR q)).2 = .ok
+          · rw [if_pos hok, if_pos hok]
+            rw [finish_ok_dsc q hok, hqd, List.append_assoc]
+          · rw [if_neg hok, if_neg hok]
+      · cases hc
+    · cases hc
+
 end PsVerif.Proofs.SplitExec
